@@ -700,6 +700,11 @@ func OpenWith(path, tsFile string, nLog, hLog, cLog appendable.Appendable, opts 
 		t.committedNLogSize = validatedCLogEntry.finalNLogSize
 		t.committedHLogSize = validatedCLogEntry.finalHLogSize
 		t.minOffset = t.root.minOffset()
+
+		// the loaded root is the most recent snapshot stored on disk: a failed insertion must roll
+		// back to it, not to an empty tree
+		t.lastSnapRoot = t.root
+		t.lastSnapRootAt = time.Now()
 	}
 
 	metricsBtreeNodesDataBeginOffset.WithLabelValues(t.path).Set(float64(t.minOffset))
